@@ -920,6 +920,82 @@ def scalar_replace(tree: ast.Module, pinned_classes: Set[str]) -> List[str]:
     return done
 
 
+def inline_single_use_temps(tree: ast.Module) -> int:
+    """`t = <expr>` immediately followed by the only statement that reads `t` (once) is the same as
+    writing <expr> in place (no await in <expr>; the reader is a simple statement or an `if` test,
+    never a loop header).  Undoes "introduce explaining variable" and makes both spellings equal."""
+    count = 0
+    for f in [n for n in ast.walk(tree) if isinstance(n, FuncDef)]:
+        params = {a.arg for a in f.args.posonlyargs + f.args.args + f.args.kwonlyargs}
+        if f.args.vararg:
+            params.add(f.args.vararg.arg)
+        if f.args.kwarg:
+            params.add(f.args.kwarg.arg)
+        changed = True
+        while changed:
+            changed = False
+            loads: Dict[str, int] = {}
+            stores: Dict[str, int] = {}
+            for n in ast.walk(f):
+                if isinstance(n, ast.Name):
+                    if isinstance(n.ctx, ast.Load):
+                        loads[n.id] = loads.get(n.id, 0) + 1
+                    else:
+                        stores[n.id] = stores.get(n.id, 0) + 1
+                elif isinstance(n, (ast.Global, ast.Nonlocal)):
+                    for x in n.names:
+                        stores[x] = stores.get(x, 0) + 5
+            for holder in ast.walk(f):
+                for fld in ("body", "orelse", "finalbody"):
+                    stmts = getattr(holder, fld, None)
+                    if not (isinstance(stmts, list) and stmts and isinstance(stmts[0], ast.stmt)):
+                        continue
+                    for i in range(len(stmts) - 1):
+                        a, b = stmts[i], stmts[i + 1]
+                        if not (isinstance(a, ast.Assign) and len(a.targets) == 1 and isinstance(a.targets[0], ast.Name)):
+                            continue
+                        t = a.targets[0].id
+                        if t in params or stores.get(t) != 1 or loads.get(t) != 1:
+                            continue
+                        if any(isinstance(x, (ast.Await, ast.Yield, ast.YieldFrom, ast.NamedExpr, ast.Lambda)) for x in ast.walk(a.value)):
+                            continue
+                        if isinstance(a.value, (ast.Constant, ast.List, ast.Dict, ast.Set, ast.ListComp, ast.DictComp, ast.SetComp, ast.GeneratorExp)):
+                            continue  # initial values of accumulators / flags are not temps
+                        if isinstance(b, (ast.Expr, ast.Assign, ast.AnnAssign, ast.AugAssign, ast.Return, ast.Raise)):
+                            region: List[ast.AST] = [b]
+                        elif isinstance(b, ast.If):
+                            region = [b.test]
+                        else:
+                            continue
+                        uses = [x for r in region for x in ast.walk(r) if isinstance(x, ast.Name) and x.id == t and isinstance(x.ctx, ast.Load)]
+                        if len(uses) != 1:
+                            continue
+                        if any(isinstance(x, (ast.Lambda, ast.ListComp, ast.SetComp, ast.DictComp, ast.GeneratorExp)) and any(u is uses[0] for u in ast.walk(x)) for r in region for x in ast.walk(r)):
+                            continue  # would be re-evaluated per element / later
+
+                        class Sub(ast.NodeTransformer):
+                            def visit_Name(self, node: ast.Name):  # noqa: N802
+                                if node is uses[0]:
+                                    return ast.copy_location(copy.deepcopy(a.value), node)
+                                return node
+
+                        if isinstance(b, ast.If):
+                            b.test = Sub().visit(b.test)
+                        else:
+                            stmts[i + 1] = Sub().visit(b)
+                        del stmts[i]
+                        count += 1
+                        changed = True
+                        break
+                    if changed:
+                        break
+                if changed:
+                    break
+    if count:
+        ast.fix_missing_locations(tree)
+    return count
+
+
 def expand_final_aliases(tree: ast.Module) -> int:
     """`conn = self.connection` (the attribute is assigned only in __init__, the local bound once,
     at the top level of the method) is a mere alias: its uses read as the attribute chain."""
@@ -948,12 +1024,19 @@ def expand_final_aliases(tree: ast.Module) -> int:
                     stores[n.id] = stores.get(n.id, 0) + 1
             params = {a.arg for a in m.args.posonlyargs + m.args.args + m.args.kwonlyargs}
             aliases: Dict[str, ast.expr] = {}
-            for st in m.body:
-                if isinstance(st, ast.Assign) and len(st.targets) == 1 and isinstance(st.targets[0], ast.Name):
+            in_loop = {id(x) for lp in ast.walk(m) if isinstance(lp, (ast.For, ast.AsyncFor, ast.While)) for x in ast.walk(lp)}
+            for st in ast.walk(m):
+                if isinstance(st, ast.Assign) and len(st.targets) == 1 and isinstance(st.targets[0], ast.Name) and id(st) not in in_loop:
                     name = st.targets[0].id
-                    d = _dotted(st.value)
+                    v = st.value
+                    d = _dotted(v)
+                    if d is None and isinstance(v, ast.Subscript) and (isinstance(v.slice, ast.Constant) or (isinstance(v.slice, ast.Name) and v.slice.id in params and stores.get(v.slice.id, 0) == 0)):
+                        d = _dotted(v.value)  # self.table[key] with a parameter / constant key
                     if d and d.startswith("self.") and stores.get(name) == 1 and name not in params and d.split(".")[1] not in assigned_outside_init:
-                        aliases[name] = st.value
+                        # every read of the alias comes after its definition
+                        first_use = min([getattr(n, "lineno", 0) for n in ast.walk(m) if isinstance(n, ast.Name) and n.id == name and isinstance(n.ctx, ast.Load)] or [0])
+                        if first_use >= getattr(st, "lineno", 0):
+                            aliases[name] = st.value
             if not aliases:
                 continue
             if any(isinstance(n, FuncDef + (ast.Lambda,)) and n is not m for n in ast.walk(m)):
@@ -1247,6 +1330,43 @@ class _Inliner:
             if body is None:
                 return None
             return _replace_returns(body, lambda r: None) or [ast.copy_location(ast.Pass(), s)]
+        if isinstance(s, ast.If) and not s.orelse and s.body and isinstance(s.body[-1], (ast.Break, ast.Continue, ast.Return, ast.Raise)):
+            # `if not helper(...): <jump>` where the helper only returns True / False ("extract with early exit")
+            t = s.test
+            neg = isinstance(t, ast.UnaryOp) and isinstance(t.op, ast.Not)
+            call = self._is_call(t.operand if neg else t, h, kind)
+            if call is None:
+                return None
+            if not rets or any(not (isinstance(r.value, ast.Constant) and isinstance(r.value.value, bool)) for r in rets):
+                return None
+            jump_on = not neg  # the helper's return value that triggers the jump
+            if any(id(r) not in tails for r in rets if r.value.value is not jump_on):
+                return None
+            if not _always_leaves(h.body):  # type: ignore[attr-defined]
+                return None
+            jump_pos = {(getattr(r, "lineno", 0), getattr(r, "col_offset", 0)) for r in rets if r.value.value is jump_on}
+            body = self._body(h, call, kind, owner)
+            if body is None:
+                return None
+
+            def expand(stmts: List[ast.stmt]) -> List[ast.stmt]:
+                out: List[ast.stmt] = []
+                for st in stmts:
+                    if isinstance(st, ast.Return):
+                        if (getattr(st, "lineno", 0), getattr(st, "col_offset", 0)) in jump_pos:
+                            out.extend(copy.deepcopy(s.body))
+                        continue
+                    for fld in ("body", "orelse", "finalbody"):
+                        v = getattr(st, fld, None)
+                        if isinstance(v, list) and v and isinstance(v[0], ast.stmt) and not isinstance(st, FuncDef + (ast.ClassDef,)):
+                            nv = expand(v)
+                            setattr(st, fld, nv if (nv or fld != "body") else [ast.copy_location(ast.Pass(), st)])
+                    for hd in getattr(st, "handlers", []) or []:
+                        hd.body = expand(hd.body) or [ast.copy_location(ast.Pass(), hd)]
+                    out.append(st)
+                return out
+
+            return expand(body) or [ast.copy_location(ast.Pass(), s)]
         if isinstance(s, ast.Return) and s.value is not None:
             call = self._is_call(s.value, h, kind)
             if call is None:
@@ -1477,6 +1597,9 @@ def canonicalise(name: str, tree: ast.Module, known: Dict[str, Dict[str, List[st
         nal = expand_final_aliases(tree)
         if nal:
             stats["final_aliases_expanded"] = nal
+    nt = inline_single_use_temps(tree)
+    if nt:
+        stats["single_use_temps_inlined"] = nt
     nfl = flag_loops(tree)
     if nfl:
         stats["flag_loops"] = nfl
